@@ -40,9 +40,14 @@ type fallbackGenerator struct {
 	counter uint64
 }
 
+// fallbackSeq numbers the fallback generators of this process: the clock alone
+// does not tell apart two generators created at the same instant.
+var fallbackSeq uint64
+
 func NewFallbackGenerator() IGenerator {
+	seq := atomic.AddUint64(&fallbackSeq, 1)
 	return &fallbackGenerator{
-		prefix: strconv.FormatInt(time.Now().UnixNano(), 36),
+		prefix: strconv.FormatUint(seq, 10) + "-" + strconv.FormatInt(time.Now().UnixNano(), 36),
 	}
 }
 
